@@ -175,7 +175,7 @@ def run_lin(case):
             rnd = 1e13 * Spec(lops.build, lops.scalar_value).noise(desc, x + y)[1]
         worst = 0.0
         for a in (1j, complex(rng.standard_normal(), rng.standard_normal())):
-            lhs = np.asarray(A(a * x + y))
+            lhs = np.asarray(A(np.asarray(a * x + y)))
             rhs = a * Ax + Ay
             checks += 1
             sc = abs(a) * nrm(Ax) + nrm(Ay) + 1e-3 * (1 + abs(a)) * max(nrm(x), nrm(y), peak) \
@@ -195,7 +195,7 @@ def run_lin(case):
             try:
                 Axr, Ayr = np.asarray(A(xr)), np.asarray(A(yr_))
                 a = complex(rng.standard_normal(), rng.standard_normal())
-                lhs = np.asarray(A(a * xr + yr_))
+                lhs = np.asarray(A(np.asarray(a * xr + yr_)))
                 ok_real = True
             except Exception as e_:
                 ok_real = False
@@ -219,7 +219,7 @@ def run_lin(case):
         Hu, Hv = np.asarray(AH(u)), np.asarray(AH(v))
         pk = STATE.peak
         for a in (1j, complex(rng.standard_normal(), rng.standard_normal())):
-            lhs = np.asarray(AH(a * u + v))
+            lhs = np.asarray(AH(np.asarray(a * u + v)))
             rhs = a * Hu + Hv
             checks += 1
             sc = abs(a) * nrm(Hu) + nrm(Hv) + 1e-3 * (1 + abs(a)) * max(nrm(u), nrm(v), pk) \
